@@ -378,7 +378,22 @@ def read_back(path, tree, limit=None):
     stray = 0
     for lv in range(pck.limit_level + 1):
         c = pck.cells[lv]
-        for b in range(len(c["indexes"])):
+        nb = len(c["indexes"])
+        if nb >= 3 and not bad:
+            # several boxes through one list selection whose order is not its own inverse (a cyclic shift), against the
+            # same boxes read one by one
+            order = list(range(1, nb)) + [0]
+            try:
+                with quiet(), pools.controlled():
+                    many = pck[:][lv][order]
+                    single = [pck[:][lv][b] for b in order]
+            except Exception as e:
+                bad.append(f"level {lv}: read of the box list {order} raised {type(e).__name__}: {e}")
+                many = single = []
+            if len(many) != len(single) or any(np.asarray(a).shape != np.asarray(b_).shape or np.asarray(a).tobytes() != np.asarray(b_).tobytes()
+                                                for a, b_ in zip(many, single)):
+                bad.append(f"level {lv}: the box list {order} returns other data than the same boxes read one by one")
+        for b in range(nb):
             lo = [int(x) for x in c["indexes"][b][0]]; hi = [int(x) for x in c["indexes"][b][1]]
             shape = [h - l + 1 for l, h in zip(lo, hi)]
             rel = os.path.relpath(c["files"][b], path)
